@@ -45,19 +45,26 @@ Example C06_positive_examples :
 Proof. vm_compute. reflexivity. Qed.
 
 (* ------------------------------------------------------------------ "temporaries are always written before they are read"
-   Decided per output by the must-analysis `da_effect` (definite assignment), evaluated in Coq on every real emitted effect
-   with all non-temporary locals taken as assigned (tools/vt/diffrun.py: tmp_def).  What a positive verdict means, for EVERY
-   effect, state and fuel: definite assignment is preserved by execution (loops and calls included), and a well-sorted,
-   definitely-assigned loop-free effect never gets stuck on a read of an unassigned local. *)
-From RZ.proofs Require Import SortSound.
-Theorem C06_definite_assignment_is_preserved : forall rw subs fuel e D D' s s',
-  da_effect rw D e = Some D' -> env_ok D (locals s) -> exec rw subs fuel e s = Some s' -> env_ok D' (locals s').
-Proof. intros rw subs fuel e D D' s s'. exact (da_effect_preservation rw subs fuel e D D' s s'). Qed.
-Print Assumptions C06_definite_assignment_is_preserved.
-Theorem C06_temporaries_written_before_read : forall rw subs e G G' H D D' s fuel,
-  wf_effect rw G e = Some G' -> ext G' H -> consistent H (locals s) ->
-  da_effect rw D e = Some D' -> env_ok D (locals s) ->
-  no_repeat e = true -> calls_opaque subs e -> (depth e <= fuel)%nat ->
-  exists s', exec rw subs fuel e s = Some s' /\ env_ok D' (locals s') /\ consistent H (locals s').
-Proof. intros rw subs e G G' H D D' s fuel. exact (wf_effect_progress rw subs e G G' H D D' s fuel). Qed.
+   Decided per output by the syntactic must-analysis `tdefS` (sem/TmpCheck.v: every read of an h_tmpN local must be
+   preceded, on every path, by a write; both arms of a branch; loop bodies may run zero times; bodies of known callees
+   are analysed too), evaluated in Coq on every real emitted effect.  What a positive verdict MEANS, for every effect,
+   every state, every fuel (proofs/TmpCheckProofs.v): the run never depends on what a not-yet-written temporary holds,
+   nor on whether it exists - non-interference.  (The sort side condition is necessary: ESetL checks the sort of an old
+   value; `unconditional_noninterference_false` in that file.) *)
+From RZ.sem Require Import TmpCheck.
+From RZ.proofs Require Import TmpCheckProofs.
+Theorem C06_temporaries_written_before_read : forall rw subs fuel n e D D' s1 s2,
+  tdefS subs n D e = Some D' -> agree_off D s1 s2 -> stale_same_sorts D s1 s2 ->
+  match exec rw subs fuel e s1, exec rw subs fuel e s2 with
+  | Some s1', Some s2' => agree_off D' s1' s2' /\ stale_same_sorts D' s1' s2'
+  | None, None => True
+  | _, _ => False
+  end.
+Proof. exact tdefS_noninterference. Qed.
 Print Assumptions C06_temporaries_written_before_read.
+(* removing every stale temporary from the start state changes nothing a successful run can observe *)
+Theorem C06_stale_temporaries_are_irrelevant : forall rw subs fuel n e D D' s s',
+  tdefS subs n D e = Some D' -> exec rw subs fuel e s = Some s' ->
+  exists c', exec rw subs fuel e (clean D s) = Some c' /\ agree_off D' s' c'.
+Proof. exact run_then_clean_run. Qed.
+Print Assumptions C06_stale_temporaries_are_irrelevant.
